@@ -1,5 +1,6 @@
 (* Executable entry points for the C02 correspondence (aliased fill of polygons inside the clip). *)
 From Coq Require Import ZArith Bool List.
+From TS Require Model.CurveEdge.
 From TS Require Import Base.F32 Model.Rect Model.PathBuilder Model.Conic Model.RunC14 Model.IntRect Model.Edge Model.Walk.
 Import ListNotations.
 Local Open Scope Z_scope.
@@ -55,6 +56,17 @@ Definition run_line_edge (l : list Z) : list Z :=
       | None => [-1]
       | Some None => [-2]
       | Some (Some e) => [e_x e; e_dx e; e_first_y e; e_last_y e; e_winding e]
+      end
+  | _ => [-3]
+  end.
+
+(* QuadraticEdge: args x0 y0 x1 y1 x2 y2 (bit patterns) shift -> n then n * (x dx first_y last_y winding); -1 = a panic *)
+Definition run_quad_edge (l : list Z) : list Z :=
+  match l with
+  | [a; b; c; d; e; f; sh] =>
+      match CurveEdge.quad_edge_lines (pz a b) (pz c d) (pz e f) sh with
+      | None => [-1]
+      | Some ls => Z.of_nat (length ls) :: flat_map (fun e => [e_x e; e_dx e; e_first_y e; e_last_y e; e_winding e]) ls
       end
   | _ => [-3]
   end.
